@@ -26,10 +26,49 @@ Definition reset_static (r : reset_row) : bool :=
   forallb (one_lane_op 8) (snd (snd r) 0%nat) && forallb quiet_op (snd (snd r) 0%nat)
   && forallb (fun k : bool * colour => let ref := run 1 KrausCheck.b00 (snd (snd r) 0%nat) (start_state (fst k) (snd k) 0) in
                Nat.eqb (nrec ref) 0 && Nat.eqb (nsil ref) (if fst k then 1 else 0)) entry_kinds.
+Definition meas_noisy_static (r : meas_row) : bool :=
+  forallb (fun inv => forallb (one_lane_op 8) (snd (snd r) 0%nat qp inv) && forallb quiet_op (snd (snd r) 0%nat qp inv)) [false; true].
+Definition noise1_row := (string * (nat -> list (op nat)))%type.
+Definition noise1_static (r : noise1_row) : bool := forallb (one_lane_op 8) (snd r 0%nat) && forallb quiet_op (snd r 0%nat).
+Lemma meas_noisy_static_ok : forallb meas_noisy_static meas_fns = true. Proof. vm_compute. reflexivity. Qed.
+Lemma noise1_static_ok : forallb noise1_static noise1_fns = true. Proof. vm_compute. reflexivity. Qed.
+Lemma meas_noisy_natural : Forall (fun r : meas_row => forall q inv, snd (snd r) q qp inv = map (op_map (fun _ => q)) (snd (snd r) 0%nat qp inv)) meas_fns.
+Proof. repeat constructor; intros q inv; destruct inv; reflexivity. Qed.
+Lemma noise1_natural : Forall (fun r : noise1_row => forall q, snd r q = map (op_map (fun _ => q)) (snd r 0%nat)) noise1_fns.
+Proof. repeat constructor; intros q; reflexivity. Qed.
+(* the fragment drawn for probability p > 0 is the one drawn for the canonical probability, up to OChan payloads and the value of p in OMeas *)
+Lemma meas_noisy_same : Forall (fun r : meas_row => forall q p inv, noisy_p p = true -> Forall2 op_same (snd (snd r) q p inv) (snd (snd r) q qp inv)) meas_fns.
+Proof.
+  unfold meas_fns.
+  repeat (apply Forall_cons;
+    [intros q p inv Hp; destruct inv; cbn -[op_same];
+     repeat (apply Forall2_cons; [first [apply op_same_refl | cbn [op_same]; repeat split; rewrite Hp; reflexivity]|]); apply Forall2_nil |]).
+  apply Forall_nil.
+Qed.
 Lemma meas_static_ok : forallb meas_static meas_fns = true. Proof. vm_compute. reflexivity. Qed.
 Lemma reset_static_ok : forallb reset_static reset_fns = true. Proof. vm_compute. reflexivity. Qed.
 Lemma kind_in (ex : bool) (col : colour) : In (ex, col) entry_kinds.
 Proof. destruct ex, col; cbn; tauto. Qed.
+
+Definition cn_ops (name : string) (args : list Q) (q : nat) : option (list (op nat)) :=
+  match args with
+  | [p] => if String.eqb name "x_error" then Some (g_x_error q p) else if String.eqb name "y_error" then Some (g_y_error q p)
+           else if String.eqb name "z_error" then Some (g_z_error q p) else if String.eqb name "depolarize1" then Some (g_depolarize1 q p) else None
+  | [px; py; pz] => if String.eqb name "pauli_channel_1" then Some (g_pauli_channel_1 q px py pz) else None
+  | _ => None
+  end.
+Lemma cn_ops_row name args q o : cn_ops name args q = Some o -> exists g, In (name, g) noise1_fns /\ Forall2 op_same o (g q).
+Proof.
+  unfold cn_ops. intro Ho. destruct args as [|p [|py [|pz [|? ?]]]]; try discriminate Ho.
+  - destruct (String.eqb name "x_error") eqn:E1; [apply String.eqb_eq in E1; subst; injection Ho as <-; eexists; split; [left; reflexivity|]; cbn -[op_same]; repeat (constructor; [first [apply op_same_refl | exact I]|]); constructor|].
+    destruct (String.eqb name "y_error") eqn:E2; [apply String.eqb_eq in E2; subst; injection Ho as <-; eexists; split; [right; left; reflexivity|]; cbn -[op_same]; repeat (constructor; [first [apply op_same_refl | exact I]|]); constructor|].
+    destruct (String.eqb name "z_error") eqn:E3; [apply String.eqb_eq in E3; subst; injection Ho as <-; eexists; split; [right; right; left; reflexivity|]; cbn -[op_same]; repeat (constructor; [first [apply op_same_refl | exact I]|]); constructor|].
+    destruct (String.eqb name "depolarize1") eqn:E4; [apply String.eqb_eq in E4; subst; injection Ho as <-; eexists; split; [right; right; right; left; reflexivity|]; cbn -[op_same]; repeat (constructor; [first [apply op_same_refl | exact I]|]); constructor|].
+    discriminate Ho.
+  - destruct (String.eqb name "pauli_channel_1") eqn:E5; [|discriminate Ho]. apply String.eqb_eq in E5; subst; injection Ho as <-; eexists; split; [right; right; right; right; left; reflexivity|]; cbn -[op_same]; repeat (constructor; [first [apply op_same_refl | exact I]|]); constructor.
+Qed.
+Lemma wf_all_same n o o' : Forall2 op_same o o' -> forallb (wf_op n) o = forallb (wf_op n) o'.
+Proof. induction 1 as [|x y l l' Hxy Hl IH]; cbn [forallb]; [reflexivity | rewrite (wf_op_same n x y Hxy), IH; reflexivity]. Qed.
 
 Section KCirc.
   Variable R : Type.
@@ -65,12 +104,16 @@ Section KCirc.
   Inductive cinstr :=
   | CG (x : gapp)                               (* a gate of GATE_TABLE on one or two lanes *)
   | CM (name : string) (inv : bool) (q : nat)   (* m mx my mr mrx mry, noiseless, optionally inverted *)
-  | CR (name : string) (q : nat).               (* r rx ry *)
+  | CR (name : string) (q : nat)                (* r rx ry *)
+  | CMp (name : string) (p : Q) (inv : bool) (q : nat)   (* the same measurements with flip probability p > 0 *)
+  | CN (name : string) (args : list Q) (q : nat).        (* x_error y_error z_error depolarize1 (one argument), pauli_channel_1 (three) *)
   Definition cinstr_ops (i : cinstr) : option (list (op nat)) :=
     match i with
     | CG x => gapp_ops x
     | CM name inv q => match assoc name meas_fns with Some (_, _, g) => Some (g q qz inv) | None => None end
     | CR name q => match assoc name reset_fns with Some (_, g) => Some (g q) | None => None end
+    | CMp name p inv q => if noisy_p p then match assoc name meas_fns with Some (_, _, g) => Some (g q p inv) | None => None end else None
+    | CN name args q => cn_ops name args q
     end.
   Fixpoint ccircuit_ops (c : list cinstr) : option (list (op nat)) :=
     match c with
@@ -85,12 +128,17 @@ Section KCirc.
     | CG x => gapp_doc x psi
     | CM name inv q =>
         match assoc name meas_fns with
-        | Some (basis, is_reset, _) => aapp1 (m2f_of (spec_meas_m basis is_reset inv (window b (knrec R sk) (knsil R sk)))) q psi
+        | Some (basis, is_reset, _) => aapp1 (m2f_of (spec_meas_m basis is_reset inv (window b (knrec R sk) (knsil R sk) (knerr R sk)))) q psi
         | None => psi end
     | CR name q =>
         match assoc name reset_fns with
-        | Some (basis, _) => aapp1 (m2f_of (spec_reset_m basis (kex R sk q) (window b (knrec R sk) (knsil R sk)))) q psi
+        | Some (basis, _) => aapp1 (m2f_of (spec_reset_m basis (kex R sk q) (window b (knrec R sk) (knsil R sk) (knerr R sk)))) q psi
         | None => psi end
+    | CMp name p inv q =>
+        match assoc name meas_fns with
+        | Some (basis, is_reset, _) => aapp1 (m2f_of (spec_meas_noisy_m basis is_reset inv (window b (knrec R sk) (knsil R sk) (knerr R sk)))) q psi
+        | None => psi end
+    | CN name args q => aapp1 (m2f_of (spec_noise1_m name (window b (knrec R sk) (knsil R sk) (knerr R sk)))) q psi
     end.
   Fixpoint cspec (b : bits) (sk : kst) (c : list cinstr) (psi : state) : state :=
     match c with
@@ -108,10 +156,12 @@ Section KCirc.
   Qed.
   Lemma spec_instr_scale b sk i c psi : spec_instr b sk i (scale c psi) = scale c (spec_instr b sk i psi).
   Proof.
-    destruct i as [x | name inv q | name q]; cbn [spec_instr].
+    destruct i as [x | name inv q | name q | name p inv q | name args q]; cbn [spec_instr].
     - apply gapp_doc_scale.
     - destruct (assoc name meas_fns) as [[[basis is_reset] g]|]; [apply (scale_app1 R rO rI radd rmul rsub ropp Rth) | reflexivity].
     - destruct (assoc name reset_fns) as [[basis g]|]; [apply (scale_app1 R rO rI radd rmul rsub ropp Rth) | reflexivity].
+    - destruct (assoc name meas_fns) as [[[basis is_reset] g]|]; [apply (scale_app1 R rO rI radd rmul rsub ropp Rth) | reflexivity].
+    - apply (scale_app1 R rO rI radd rmul rsub ropp Rth).
   Qed.
   Lemma cspec_scale b c0 : forall sk c psi, cspec b sk c0 (scale c psi) = scale c (cspec b sk c0 psi).
   Proof.
@@ -123,7 +173,7 @@ Section KCirc.
   Theorem instr_sound i o : cinstr_ops i = Some o -> forall sk : kst,
     exists C, sq2 C /\ forall b t, skel_eq t sk -> exists e : Qc, kfinal (krun b o t) = scale (E e * C) (spec_instr b sk i (kfinal t)).
   Proof.
-    destruct i as [x | name inv q | name q]; cbn [cinstr_ops spec_instr]; intros Ho sk.
+    destruct i as [x | name inv q | name q | name p inv q | name args q]; cbn [cinstr_ops spec_instr]; intros Ho sk.
     - (* gate *)
       destruct (gate_in_context R rO rI radd rmul rsub ropp Rth E E_add E_0 E_1 half half_2 ta tb tc x o Ho) as (e & He).
       exists (uM sk o). split; [apply sq2_uM|]. intros b t Hs. exists (xv e). rewrite (He b t).
@@ -141,9 +191,9 @@ Section KCirc.
       apply andb_true_iff in Hck. destruct Hck as [Hag Hfl].
       destruct (frag_anywhere R rO rI radd rmul rsub ropp Rth E E_add E_0 E_1 half half_2 ta tb tc (g 0%nat qz inv)
                   (spec_meas_m basis is_reset inv) (kex R sk q) (kcol R sk q) Hone Hq Hag Hfl) as (k & Hk).
-      exists (ev (psqrt2pow k)). split; [constructor|]. intros b t Hs. pose proof Hs as Hs'. destruct Hs' as (Kex & Kcol & Knr & Kns & _).
+      exists (ev (psqrt2pow k)). split; [constructor|]. intros b t Hs. pose proof Hs as Hs'. destruct Hs' as (Kex & Kcol & Knr & Kns & Kne & _).
       destruct (Hk b t q ltac:(rewrite Kex; reflexivity) ltac:(rewrite Kcol; reflexivity)) as ((e & _ & He) & _).
-      exists (xv e). rewrite Hn, He, Knr, Kns. reflexivity.
+      exists (xv e). rewrite Hn, He, Knr, Kns, Kne. reflexivity.
     - (* reset *)
       destruct (assoc name reset_fns) as [[basis g]|] eqn:Ha; [|discriminate]. injection Ho as <-.
       pose proof (assoc_in _ _ _ Ha) as Hin.
@@ -155,9 +205,41 @@ Section KCirc.
       apply andb_true_iff in Hck. destruct Hck as [Hag Hfl].
       destruct (frag_anywhere R rO rI radd rmul rsub ropp Rth E E_add E_0 E_1 half half_2 ta tb tc (g 0%nat)
                   (spec_reset_m basis (kex R sk q)) (kex R sk q) (kcol R sk q) Hone Hq Hag Hfl) as (k & Hk).
-      exists (ev (psqrt2pow k)). split; [constructor|]. intros b t Hs. pose proof Hs as Hs'. destruct Hs' as (Kex & Kcol & Knr & Kns & _).
+      exists (ev (psqrt2pow k)). split; [constructor|]. intros b t Hs. pose proof Hs as Hs'. destruct Hs' as (Kex & Kcol & Knr & Kns & Kne & _).
       destruct (Hk b t q ltac:(rewrite Kex; reflexivity) ltac:(rewrite Kcol; reflexivity)) as ((e & _ & He) & _).
-      exists (xv e). rewrite Hn, He, Knr, Kns. reflexivity.
+      exists (xv e). rewrite Hn, He, Knr, Kns, Kne. reflexivity.
+    - (* noisy measurement *)
+      destruct (noisy_p p) eqn:Hp; [|discriminate].
+      destruct (assoc name meas_fns) as [[[basis is_reset] g]|] eqn:Ha; [|discriminate]. injection Ho as <-.
+      pose proof (assoc_in _ _ _ Ha) as Hin.
+      pose proof meas_noisy_same as Hsm. rewrite Forall_forall in Hsm. specialize (Hsm _ Hin q p inv Hp). cbn [snd] in Hsm.
+      pose proof meas_noisy_natural as Hn. rewrite Forall_forall in Hn. specialize (Hn _ Hin q inv). cbn [snd] in Hn.
+      pose proof meas_noisy_static_ok as Hst. rewrite forallb_forall in Hst. specialize (Hst _ Hin). unfold meas_noisy_static in Hst. cbn [snd] in Hst.
+      rewrite forallb_forall in Hst. assert (Hinv : In inv [false; true]) by (destruct inv; cbn; tauto). specialize (Hst inv Hinv).
+      rewrite !andb_true_iff in Hst. destruct Hst as [Hone Hq].
+      pose proof meas_noisy_at_ok as Hck. rewrite forallb_forall in Hck. specialize (Hck _ Hin). unfold check_meas_noisy_at in Hck.
+      rewrite forallb_forall in Hck. assert (Hinv' : In inv bools) by (destruct inv; cbn; tauto). specialize (Hck inv Hinv').
+      rewrite forallb_forall in Hck. specialize (Hck _ (kind_in (kex R sk q) (kcol R sk q))). cbv beta iota in Hck.
+      apply andb_true_iff in Hck. destruct Hck as [Hag Hfl].
+      destruct (frag_anywhere R rO rI radd rmul rsub ropp Rth E E_add E_0 E_1 half half_2 ta tb tc (g 0%nat qp inv)
+                  (spec_meas_noisy_m basis is_reset inv) (kex R sk q) (kcol R sk q) Hone Hq Hag Hfl) as (k & Hk).
+      exists (ev (psqrt2pow k)). split; [constructor|]. intros b t Hs. pose proof Hs as Hs'. destruct Hs' as (Kex & Kcol & Knr & Kns & Kne & _).
+      destruct (Hk b t q ltac:(rewrite Kex; reflexivity) ltac:(rewrite Kcol; reflexivity)) as ((e & _ & He) & _).
+      exists (xv e). rewrite (krun_same R rO rI radd rmul ropp E half ta tb tc b _ _ Hsm t), Hn, He, Knr, Kns, Kne. reflexivity.
+    - (* single-qubit Pauli channel *)
+      pose proof (cn_ops_row name args q o Ho) as Hrow.
+      destruct Hrow as (g & Hin & Hsm).
+      pose proof noise1_natural as Hn. rewrite Forall_forall in Hn. specialize (Hn _ Hin q). cbn [snd] in Hn.
+      pose proof noise1_static_ok as Hst. rewrite forallb_forall in Hst. specialize (Hst _ Hin). unfold noise1_static in Hst. cbn [snd] in Hst.
+      apply andb_true_iff in Hst. destruct Hst as [Hone Hq].
+      pose proof noise1_at_ok as Hck. rewrite forallb_forall in Hck. specialize (Hck _ Hin). unfold check_noise1_at in Hck.
+      rewrite forallb_forall in Hck. specialize (Hck _ (kind_in (kex R sk q) (kcol R sk q))). cbv beta iota in Hck.
+      apply andb_true_iff in Hck. destruct Hck as [Hag Hfl].
+      destruct (frag_anywhere R rO rI radd rmul rsub ropp Rth E E_add E_0 E_1 half half_2 ta tb tc (g 0%nat)
+                  (spec_noise1_m name) (kex R sk q) (kcol R sk q) Hone Hq Hag Hfl) as (k & Hk).
+      exists (ev (psqrt2pow k)). split; [constructor|]. intros b t Hs. pose proof Hs as Hs'. destruct Hs' as (Kex & Kcol & Knr & Kns & Kne & _).
+      destruct (Hk b t q ltac:(rewrite Kex; reflexivity) ltac:(rewrite Kcol; reflexivity)) as ((e & _ & He) & _).
+      exists (xv e). rewrite (krun_same R rO rI radd rmul ropp E half ta tb tc b _ _ Hsm t), Hn, He, Knr, Kns, Kne. reflexivity.
   Qed.
 
   (* ---- THE composition theorem on amplitude functions ---- *)
@@ -206,11 +288,11 @@ Section KCirc.
     match i with
     | CG (GA1 _ a) => Nat.ltb a n
     | CG (GA2 _ a c) => Nat.ltb a n && Nat.ltb c n
-    | CM _ _ q | CR _ q => Nat.ltb q n
+    | CM _ _ q | CR _ q | CMp _ _ _ q | CN _ _ q => Nat.ltb q n
     end.
   Lemma cinstr_wf n i o : cinstr_ops i = Some o -> cinstr_lanes_ok n i = true -> forallb (wf_op n) o = true.
   Proof.
-    destruct i as [[name a | name a c] | name inv q | name q]; cbn [cinstr_ops cinstr_lanes_ok gapp_ops]; intros Ho Hl.
+    destruct i as [[name a | name a c] | name inv q | name q | name p inv q | name args q]; cbn [cinstr_ops cinstr_lanes_ok gapp_ops]; intros Ho Hl.
     - apply Nat.ltb_lt in Hl.
       destruct (assoc name gate_table) as [[fn [|[|ar]]]|] eqn:Ha; try discriminate.
       destruct (doc_of name) as [[[|[|n']] D]|] eqn:Hd; try discriminate.
@@ -243,6 +325,22 @@ Section KCirc.
       pose proof reset_natural as Hn. rewrite Forall_forall in Hn. specialize (Hn _ Hin q). cbn [snd] in Hn. rewrite Hn.
       pose proof reset_static_ok as Hst. rewrite forallb_forall in Hst. specialize (Hst _ Hin). unfold reset_static in Hst. cbn [snd] in Hst.
       rewrite !andb_true_iff in Hst. destruct Hst as [[Hone _] _].
+      apply (forallb_map_imp (one_lane_op 8) (wf_op n)); [intros x Hx; apply (one_lane_wf_at n q 8 Hl x Hx) | exact Hone].
+    - apply Nat.ltb_lt in Hl. destruct (noisy_p p) eqn:Hp; [|discriminate].
+      destruct (assoc name meas_fns) as [[[basis is_reset] g]|] eqn:Ha; [|discriminate]. injection Ho as <-.
+      pose proof (assoc_in _ _ _ Ha) as Hin.
+      pose proof meas_noisy_same as Hsm. rewrite Forall_forall in Hsm. specialize (Hsm _ Hin q p inv Hp). cbn [snd] in Hsm.
+      rewrite (wf_all_same n _ _ Hsm).
+      pose proof meas_noisy_natural as Hn. rewrite Forall_forall in Hn. specialize (Hn _ Hin q inv). cbn [snd] in Hn. rewrite Hn.
+      pose proof meas_noisy_static_ok as Hst. rewrite forallb_forall in Hst. specialize (Hst _ Hin). unfold meas_noisy_static in Hst. cbn [snd] in Hst.
+      rewrite forallb_forall in Hst. assert (Hinv : In inv [false; true]) by (destruct inv; cbn; tauto). specialize (Hst inv Hinv).
+      rewrite !andb_true_iff in Hst. destruct Hst as [Hone _].
+      apply (forallb_map_imp (one_lane_op 8) (wf_op n)); [intros x Hx; apply (one_lane_wf_at n q 8 Hl x Hx) | exact Hone].
+    - apply Nat.ltb_lt in Hl. destruct (cn_ops_row name args q o Ho) as (g & Hin & Hsm).
+      rewrite (wf_all_same n _ _ Hsm).
+      pose proof noise1_natural as Hn. rewrite Forall_forall in Hn. specialize (Hn _ Hin q). cbn [snd] in Hn. rewrite Hn.
+      pose proof noise1_static_ok as Hst. rewrite forallb_forall in Hst. specialize (Hst _ Hin). unfold noise1_static in Hst. cbn [snd] in Hst.
+      apply andb_true_iff in Hst. destruct Hst as [Hone _].
       apply (forallb_map_imp (one_lane_op 8) (wf_op n)); [intros x Hx; apply (one_lane_wf_at n q 8 Hl x Hx) | exact Hone].
   Qed.
   Lemma ccircuit_wf n c : forall ops, ccircuit_ops c = Some ops -> forallb (cinstr_lanes_ok n) c = true -> forallb (wf_op n) ops = true.
